@@ -252,15 +252,80 @@ theorem queue_node (name : String) (node : Node) (cur : String) (rb : List ModRe
     · exact Or.inl rfl
   · exact Or.inl rfl
 
-/-- the re-export phase: per queued module id (queue order), per queued node (sorted by name), one `restub`
+/-- the re-export phase: per queued module id (queue order), per queued node (sorted by `(name, id)`:
+    `nodeLe`, the model of `elements.sort(key=lambda x: (x.name, x.id))`), one `restub`
     entry followed by the node's own `fun` entry / class block — so a moved declaration is emitted exactly
     once, in the re-export stub -/
 theorem reexport_phase_log (env : Env) (st st' : St) (r : List StubData)
     (h : createReexportModuleStrings env st = .ok (r, st')) :
     st'.log = st.log ++ st.reexports.flatMap fun kv =>
-      (sortBy (fun (a b : Node) => strLe a.name b.name) kv.2).flatMap fun el =>
+      (sortBy nodeLe kv.2).flatMap fun el =>
         ("restub", kv.1 ++ "/" ++ el.name) :: n03_nodeLog env el :=
   (n03_createReexportModuleStrings_log env st r st' h).log
+
+/-- the same, for an arbitrary queue (this is the function used in `whole_run_log`) -/
+theorem reexportPhaseLog_eq (env : Env) (q : List (String × List Node)) :
+    n03_reexportPhaseLog env q = q.flatMap fun kv =>
+      (sortBy nodeLe kv.2).flatMap fun el =>
+        ("restub", kv.1 ++ "/" ++ el.name) :: n03_nodeLog env el := rfl
+
+/-- `nodeLe` is the lexicographic order on `(name, id)` -/
+theorem nodeLe_iff (a b : Node) :
+    nodeLe a b = true ↔ a.name < b.name ∨ (a.name = b.name ∧ a.id ≤ b.id) :=
+  n03_nodeLe_iff a b
+
+/-- the emitted order is sorted by `(name, id)` -/
+theorem reexport_phase_order_sorted (l : List Node) :
+    (sortBy nodeLe l).Pairwise (fun x y => nodeLe x y = true) ∧ (sortBy nodeLe l).Perm l :=
+  ⟨n03_sortBy_nodeLe_pairwise l, sortBy_perm_mk nodeLe l⟩
+
+/-- the order in which the queued elements of one re-exporting module are emitted does not depend on the
+    order in which they were queued, provided their `(name, id)` pairs are pairwise distinct -/
+theorem reexport_phase_order_canonical (l l' : List Node) (h : l.Perm l')
+    (hd : ∀ a ∈ l, ∀ b ∈ l, a.name = b.name → a.id = b.id → a = b) :
+    sortBy nodeLe l = sortBy nodeLe l' :=
+  n03_sortBy_nodeLe_perm h hd
+
+/-- hence the log of the re-export phase is the same for two queues with the same keys (in the same order)
+    whose node lists are permutations of each other -/
+theorem reexport_phase_log_canonical (env : Env) (q q' : List (String × List Node))
+    (h : List.Forall₂ (fun kv kv' => kv.1 = kv'.1 ∧ kv.2.Perm kv'.2) q q')
+    (hd : ∀ kv ∈ q, ∀ a ∈ kv.2, ∀ b ∈ kv.2, a.name = b.name → a.id = b.id → a = b) :
+    n03_reexportPhaseLog env q = n03_reexportPhaseLog env q' := by
+  induction h with
+  | nil => rfl
+  | @cons kv kv' q q' hkv _ ih =>
+    rw [reexportPhaseLog_eq, reexportPhaseLog_eq, List.flatMap_cons, List.flatMap_cons,
+      ← reexportPhaseLog_eq, ← reexportPhaseLog_eq,
+      ih fun kv hkv => hd kv (List.mem_cons_of_mem _ hkv),
+      reexport_phase_order_canonical kv.2 kv'.2 hkv.2 (hd kv List.mem_cons_self), hkv.1]
+
+/-- non-vacuity: two functions of the same name from different modules come out in the order of their ids,
+    whichever was queued first … -/
+example :
+    (sortBy nodeLe [.fn { id := "pkg/b/f", name := "f", isPublic := true },
+                    .fn { id := "pkg/a/f", name := "f", isPublic := true }]).map (·.id) = ["pkg/a/f", "pkg/b/f"] ∧
+    (sortBy nodeLe [.fn { id := "pkg/a/f", name := "f", isPublic := true },
+                    .fn { id := "pkg/b/f", name := "f", isPublic := true }]).map (·.id) = ["pkg/a/f", "pkg/b/f"] := by
+  decide +kernel
+
+/-- … whereas the order by name alone (the model before the repair) kept them in queue order -/
+example :
+    (sortBy (fun (a b : Node) => strLe a.name b.name)
+      [.fn { id := "pkg/b/f", name := "f", isPublic := true },
+       .fn { id := "pkg/a/f", name := "f", isPublic := true }]).map (·.id) = ["pkg/b/f", "pkg/a/f"] := by
+  decide +kernel
+
+/-- the hypothesis of `reexport_phase_order_canonical` is needed: nodes that agree on `(name, id)` but differ
+    otherwise stay in queue order (the sort is stable) -/
+example :
+    (sortBy nodeLe [.fn { id := "pkg/a/f", name := "f", isPublic := true },
+                    .fn { id := "pkg/a/f", name := "f", isPublic := false }]).map
+        (fun n => match n with | .fn f => f.isPublic | .cls c => c.isPublic) = [true, false] ∧
+    (sortBy nodeLe [.fn { id := "pkg/a/f", name := "f", isPublic := false },
+                    .fn { id := "pkg/a/f", name := "f", isPublic := true }]).map
+        (fun n => match n with | .fn f => f.isPublic | .cls c => c.isPublic) = [false, true] := by
+  decide +kernel
 
 theorem nodeLog_eq (env : Env) (c : Class) (f : Function) :
     n03_nodeLog env (.cls c) = n03_classLog env (classFuel env) c ∧ n03_nodeLog env (.fn f) = [("fun", f.id)] :=
